@@ -1940,6 +1940,17 @@ def monitor_c13_loop(t):
             i = j
         else:
             i += 1
+    # simulator: a run whose end the simulator has processed as failed, and which the loop keeps polling, is reported to the
+    # scheduler (the ground truth is the simulator's own complete event, not the status the back-end hands out)
+    for idx, tid, st in getattr(t["backend"], "sim_ends", []):
+        if st != Status.failed:
+            continue
+        later = [i for i, c, a in calls if i >= idx and c[:2] == ["be", "fetch"] and tid in c[2]]
+        told = any(c == ["sched", "error", tid] for i, c, a in calls if i >= idx - 1)
+        if len(later) >= 3 and not told:
+            out.append(F("c13:simulator-failure-not-notified", f"the simulator processed the failure of trial {tid}; the loop polled the "
+                         f"trial {len(later)} more times and never called on_trial_error", {"call": idx}))
+            break
     fin = t["final"]
     if "failed" in fin and raised != "env":
         mf = t["header"]["max_failures"]
